@@ -5,5 +5,6 @@ CONSTANTS
   U <- MCU
   Final = "final"
   ZeroFill = TRUE
+  OnWriteError = "rename"
 INVARIANTS Emit
 CHECK_DEADLOCK FALSE
